@@ -652,6 +652,9 @@ impl<P: Pred> World<P> {
                     let n = &mut core.nodes[ni];
                     n.api_hash = mix(n.api_hash, 0x0C);
                     let handled = n.game.handle(reqs, rollback_mode);
+                    if std::env::var("VERIF_TRACE_NODE").ok().and_then(|x| x.parse::<usize>().ok()) == Some(ni) {
+                        eprintln!("TRACE t={}ms node {} cur={} conf={} cs={:?} list [{}]", (t - T0) / MS, ni, sess.current_frame(), sess.confirmed_frame(), sess.verif_connect_status(), n.game.last_call_str());
+                    }
                     for r in &n.game.last_call {
                         if let Req::Save(f) = r {
                             n.last_save_frame = *f;
